@@ -6,12 +6,14 @@
    engine).  Soundness: every satisfying assignment is k source-to-sink walks with weights and slacks of the
    requested type such that on every non-ignored edge the scaled deviation |f(e) - sum_i w_i * mult_i(e)| * scale(e)
    is at most the summed slacks of the walks through the edge (with multiplicities); objective = sum of slacks.
-   (The cyclic class has no path-length factors and no given weights.  Completeness is not claimed: caps and product
-   bounds are the code's, see cycles_rep_cap_from_reachable_max / cycles_products_bounded_by_wmax.) *)
+   (The cyclic class has no path-length factors and no given weights.  Completeness, the feasibility characterisation and
+   optimality are proved WITHIN THE CAPS of the encoder (theorems at the end); beyond the caps they are false of the code:
+   cycles_rep_cap_from_reachable_max / cycles_products_bounded_by_wmax.) *)
 From Coq Require Import List NArith ZArith QArith Bool Arith Lia Permutation.
 Import ListNotations.
 From FP Require Import Lin Blocks BlocksProofs PathEnc PathEncProofs Euler EulerProofs1 EulerProofs4 WalkDecode
-                       SatCheck WalkEncRows WalkEncRowsProofs WalkExamples WalkErrEnc WalkErrEncProofs WalkErrExamples.
+                       SatCheck WalkEncRows WalkEncRowsProofs WalkExamples WalkErrEnc WalkErrEncProofs WalkErrExamples
+                       WalkTree WalkEncComplete WalkCoverIff WalkErrComplete WalkErrOptimal WalkErrOptExamples.
 Local Close Scope Q_scope.
 
 Theorem C08_walk_lp_solution_is_k_walks_with_covering_slacks : forall (I : werr_inst) (a : var -> Q),
@@ -55,3 +57,57 @@ Proof.
   split; [exact loopG_wf|]. split; [reflexivity|]. split; [exact loop_kmpe_feasible|]. split; [exact loop_err_basic|].
   split; vm_compute; reflexivity.
 Qed.
+
+(* ------------------------------------------------------------------ completeness and optimality within the caps *)
+(* kmpec_admissible I P wt sl  (WalkErrOptimal.v) =  k source-to-sink walks P whose multiplicities respect the repetition caps
+   the encoder uses, its safety fixing and subset constraints (werr_family); weights and slacks in [0, w_max] of the requested
+   type; multiplicities on non-ignored edges below 2^bits(w_max) where the product is bit-expanded; weight*multiplicity and
+   slack*multiplicity <= w_max; |scale_e * (f(e) - sum_i w_i mult_i(e))| <= sum_i slack_i mult_i(e) on every non-ignored edge. *)
+Theorem C08_walk_complete_within_caps : forall (I : werr_inst) (P : N -> list node) (wt sl : N -> Q),
+  wf_stg (x_graph I) -> kmpec_admissible I P wt sl ->
+  exists a, sat a (encode_kmpe_cycles I) /\ (objective a (encode_kmpe_cycles I) == sumq sl (layers (x_k I)))%Q /\
+            (forall i, a (W i) = wt i /\ a (Slack i) = sl i) /\ (forall e i, a (evar e i) = inject_Z (mult P i e)).
+Proof. exact kmpec_complete. Qed.
+Print Assumptions C08_walk_complete_within_caps.
+
+Theorem C08_walk_decodes_within_caps : forall (I : werr_inst) (a : var -> Q),
+  wf_stg (x_graph I) -> o_allow_empty (x_opts I) = false -> winputs_ok (werr_walk I) -> sat a (encode_kmpe_cycles I) ->
+  kmpec_admissible I (Pofw (werr_walk I) a) (fun i => a (W i)) (fun i => a (Slack i)) /\
+  (sumq (fun i => a (Slack i)) (layers (x_k I)) == objective a (encode_kmpe_cycles I))%Q.
+Proof. exact kmpec_decodes. Qed.
+Print Assumptions C08_walk_decodes_within_caps.
+
+Theorem C08_walk_feasible_iff_within_caps : forall (I : werr_inst),
+  wf_stg (x_graph I) -> o_allow_empty (x_opts I) = false -> winputs_ok (werr_walk I) ->
+  ((exists a, sat a (encode_kmpe_cycles I)) <-> (exists P wt sl, kmpec_admissible I P wt sl)).
+Proof. exact kmpec_feasible_iff_within_caps. Qed.
+Print Assumptions C08_walk_feasible_iff_within_caps.
+
+(* relative to the solver specification: the objective of an optimal satisfying assignment is the LEAST total slack over all
+   admissible families (caps visible in kmpec_admissible) *)
+Theorem C08_walk_optimal_within_caps : forall (I : werr_inst) (a : var -> Q),
+  wf_stg (x_graph I) -> o_allow_empty (x_opts I) = false -> winputs_ok (werr_walk I) ->
+  sat a (encode_kmpe_cycles I) ->
+  (forall b, sat b (encode_kmpe_cycles I) -> (objective a (encode_kmpe_cycles I) <= objective b (encode_kmpe_cycles I))%Q) ->
+  (exists P wt sl, kmpec_admissible I P wt sl /\ (sumq sl (layers (x_k I)) == objective a (encode_kmpe_cycles I))%Q) /\
+  (forall P wt sl, kmpec_admissible I P wt sl -> (objective a (encode_kmpe_cycles I) <= sumq sl (layers (x_k I)))%Q).
+Proof. exact kmpec_optimal. Qed.
+Print Assumptions C08_walk_optimal_within_caps.
+
+(* the statement WITHOUT caps (feasible for every k >= walk width, minimum over all families) is false of the code as it is
+   (open findings cycles_rep_cap_from_reachable_max, cycles_products_bounded_by_wmax); it stays visible here *)
+Definition C08_walk_full_statement : Prop :=
+  forall (I : werr_inst) (a : var -> Q), wf_stg (x_graph I) -> o_allow_empty (x_opts I) = false -> winputs_ok (werr_walk I) ->
+  sat a (encode_kmpe_cycles I) ->
+  (forall b, sat b (encode_kmpe_cycles I) -> (objective a (encode_kmpe_cycles I) <= objective b (encode_kmpe_cycles I))%Q) ->
+  forall P wt sl, wwalks (werr_walk I) P -> wrespects_fixing (werr_walk I) P -> wrealises_constraints (werr_walk I) P ->
+    (forall i, In i (layers (x_k I)) -> (0 <= wt i)%Q /\ (0 <= sl i)%Q /\ (x_int I = true -> is_int (wt i) /\ is_int (sl i))) ->
+    (forall e, In e (x_basic I) -> (Qabs.Qabs (xscale I e * (xflow I e - xexpl I P wt e)) <= xexpl I P sl e)%Q) ->
+    (objective a (encode_kmpe_cycles I) <= sumq sl (layers (x_k I)))%Q.
+
+Example C08_walk_optimal_nonvacuous :
+  wf_stg (x_graph tail_inst) /\ o_allow_empty (x_opts tail_inst) = false /\ winputs_ok (werr_walk tail_inst) /\
+  sat tail_kmpe_asg (encode_kmpe_cycles tail_inst) /\
+  (forall b, sat b (encode_kmpe_cycles tail_inst) -> (objective tail_kmpe_asg (encode_kmpe_cycles tail_inst) <= objective b (encode_kmpe_cycles tail_inst))%Q) /\
+  (exists P wt sl, kmpec_admissible tail_inst P wt sl /\ (sumq sl (layers (x_k tail_inst)) == 0)%Q).
+Proof. exact kmpec_optimal_nonvacuous. Qed.
